@@ -1,4 +1,5 @@
 import Oas3Model.Proofs.Codec
+import Oas3Model.Proofs.Union
 /-!
 # C02 — generated schema types are faithful JSON codecs for their schemas
 
@@ -179,5 +180,132 @@ example : frag2 (.map (.nullable (.arr (.int (some .i32))))) = true ∧
     classes id (fun _ => []) (.map (.nullable (.arr (.int (some .i32))))) (.obj [("a".toList, .arr [.num 1 0, .num (-5) 0]), ("b".toList, .null), ("".toList, .arr [])]) = [] ∧
     judge (.map (.nullable (.arr (.int (some .i32))))) (typeOf id (fun _ => []) (.map (.nullable (.arr (.int (some .i32))))))
       (.obj [("a".toList, .arr [.num 1 0, .num (-5) 0]), ("b".toList, .null), ("".toList, .arr [])]) = true := by decide
+
+/-! ### untagged unions (`oneOf` / `anyOf` without discriminator): Model/Union.lean, Sem/Union.lean -/
+
+/-- decoding a union picks the FIRST variant whose type accepts the document (declaration order = order of the alternatives) -/
+theorem C02_union_first_match (vs : List UVar) (d o : J) (h : rtU vs d = some o) :
+    ∃ pre v post, vs = pre ++ v :: post ∧ (∀ u ∈ pre, rtVar u d = none) ∧ rtVar v d = some o := rtU_first vs d o h
+
+/-- a union refuses a document iff every variant refuses it -/
+theorem C02_union_refuses_iff (vs : List UVar) (d : J) : rtU vs d = none ↔ ∀ v ∈ vs, rtVar v d = none := rtU_none_iff vs d
+
+/-- the variant of a `const` alternative accepts `null` and nothing else: the constant itself plays no part -/
+theorem C02_union_unit_variant_only_null (w : Str) (d o : J) (h : rtVar (.unit w) d = some o) : d.isNull = true ∧ o = .null :=
+  unit_accepts_only_null w d o h
+
+/-- finding F02-11 (repaired): under the UNTAGGED layout a union whose alternatives are all `const` (the JSON-Schema idiom
+for a documented enum, `oneOf: [{const: red, description: …}, {const: green}]`) refuses EVERY declared value — for every list
+of constants, every naming function, `oneOf` and `anyOf` alike.  This is what the generator emitted before the repair
+(`unionTy`, then used for every union); `unionRoot` now emits a plain enum for such unions (theorems below) -/
+theorem C02_untagged_const_union_refuses_every_declared (fname : Str → Str) (vname : J → Str) (oneOf : Bool) (alts : List Alt)
+    (hc : ∀ a ∈ alts, a.isConst = true ∨ a.isNullAlt = true) (v : Str) (hv : validU oneOf false alts (.str v) = true) :
+    judgeU oneOf alts (unionTy fname vname alts) (.str v) = false := by
+  simp [judgeU, judgeRunU, hv, const_union_refuses_strings fname vname alts hc v]
+
+/-- non-vacuity: `oneOf: [{const: red}, {const: green}]`, document `"red"` -/
+example : validU true false [.const "red".toList, .const "green".toList] (.str "red".toList) = true ∧
+    (∀ a ∈ [Alt.const "red".toList, .const "green".toList], a.isConst = true ∨ a.isNullAlt = true) := by decide
+
+/-- a union of constants (with or without a `null` alternative) is a plain value enum: every declared constant is
+accepted and re-encodes as itself, for every list of alternatives -/
+theorem C02_const_union_accepts_declared (fname : Str → Str) (vname : J → Str) (alts : List Alt) (hu : allUnit alts = true)
+    (s : Str) (hs : Alt.const s ∈ alts) : rtRoot (unionRoot fname vname alts) (.str s) = some (.str s) :=
+  const_root_accepts fname vname alts hu s ((mem_constsOf alts s).mpr hs)
+
+/-- … and everything that is not a declared constant — other strings, `null`, every other JSON type — is refused -/
+theorem C02_const_union_rejects_undeclared (fname : Str → Str) (vname : J → Str) (alts : List Alt) (hu : allUnit alts = true)
+    (d : J) (hd : ∀ s, d = .str s → Alt.const s ∉ alts) : rtRoot (unionRoot fname vname alts) d = none :=
+  const_root_rejects fname vname alts hu d (fun s e h => hd s e ((mem_constsOf alts s).mp h))
+
+/-- so the property holds for a union of constants on every declared value (`oneOf` and `anyOf`) -/
+theorem C02_const_union_roundtrip (fname : Str → Str) (vname : J → Str) (oneOf : Bool) (alts : List Alt) (hu : allUnit alts = true)
+    (s : Str) (hs : Alt.const s ∈ alts) (hv : validU oneOf false alts (.str s) = true) :
+    judgeRoot oneOf alts (unionRoot fname vname alts) (.str s) = true := by
+  have hany : alts.any (fun a => validAlt true a (.str s)) = true :=
+    List.any_eq_true.mpr ⟨.const s, hs, by simp [validAlt, J.scalarEq]⟩
+  have hall : alts.all (fun a => !validAlt false a (.str s) || sameAlt a (.str s) (.str s)) = true := by
+    rw [List.all_eq_true]
+    intro a ha
+    have := (List.all_eq_true.mp (Bool.and_eq_true _ _ ▸ hu).1) a ha
+    cases a with
+    | const v => simp [sameAlt, J.scalarEq]
+    | null => simp [validAlt, J.isNull]
+    | sch t => simp [Alt.isConst, Alt.isNullAlt] at this
+  simp [judgeRoot, judgeRunU, hv, C02_const_union_accepts_declared fname vname alts hu s hs, hany, hall]
+
+/-- non-vacuity: `oneOf: [{const: red}, {const: green}, {type: null}]` -/
+example : allUnit [.const "red".toList, .const "green".toList, .null] = true ∧
+    validU true false [.const "red".toList, .const "green".toList, .null] (.str "green".toList) = true := by decide
+
+/-- in a MIXED union (constants next to other alternatives: still untagged, finding F02-11 stays open for it) `null`, valid
+against no alternative, is accepted as the first unit variant and the constant itself is refused -/
+theorem C02_cex_const_union_reads_null :
+    (rtRoot (unionRoot id (fun _ => []) [.const "auto".toList, .sch .bool]) .null).isSome = true ∧
+    [Alt.const "auto".toList, .sch .bool].any (fun a => validAlt true a .null) = false ∧
+    rtRoot (unionRoot id (fun _ => []) [.const "auto".toList, .sch .bool]) (.str "auto".toList) = none ∧
+    classesU id (fun _ => []) true [.const "auto".toList, .sch .bool] (.str "auto".toList) = [.constVariantIsUnit] := by decide
+
+/-- LIFTING through `anyOf`: if the round-trip holds for the alternative `s` on `doc` (`judge`), no earlier variant accepts
+`doc`, and `doc` is valid against no other alternative, then the round-trip holds for the union — whatever the other
+alternatives are -/
+theorem C02_union_lift (fname : Str → Str) (vname : J → Str) (pre post : List Alt) (s : S) (doc : J)
+    (hv : valid false s doc = true) (hj : judge s (typeOf fname vname s) doc = true)
+    (hpre : ∀ u ∈ unionTy fname vname pre, rtVar u doc = none)
+    (hothers : ∀ a ∈ pre ++ post, validAlt false a doc = false) :
+    judgeU false (pre ++ .sch s :: post) (unionTy fname vname (pre ++ .sch s :: post)) doc = true := by
+  have hl := union_lift fname vname pre post s doc hpre
+  simp only [judge, judgeRun, hv, if_true] at hj
+  cases hr : rt (typeOf fname vname s) doc with
+  | none => simp [hr] at hj
+  | some out =>
+    simp only [hr, Bool.and_eq_true] at hj hl
+    have hmem : Alt.sch s ∈ pre ++ .sch s :: post := by simp
+    have hcount : ∀ d, valid false s d = true → validU false false (pre ++ .sch s :: post) d = true := by
+      intro d hd
+      simp only [validU, matchCount, Bool.false_eq_true, if_false]
+      apply decide_eq_true
+      exact List.length_pos_of_mem ((List.mem_filter (p := fun a => validAlt false a d)).mpr ⟨hmem, by simp [validAlt, hd]⟩)
+    have hany : (pre ++ Alt.sch s :: post).any (fun a => validAlt true a doc) = true :=
+      List.any_eq_true.mpr ⟨.sch s, hmem, by simpa [validAlt] using valid_mono s doc hv⟩
+    simp only [judgeU, judgeRunU, hl, hcount doc hv, hcount out hj.1.1, if_true, hany, Bool.and_true, Bool.true_and,
+      List.all_eq_true]
+    intro a ha
+    rcases List.mem_append.mp ha with ha | ha
+    · simp [hothers a (by simp [ha])]
+    · rcases List.mem_cons.mp ha with rfl | ha
+      · simp [sameAlt, hj.1.2]
+      · simp [hothers a (by simp [ha])]
+
+/-- non-vacuity of the lifting: `anyOf: [integer(int32), string, {type: null}]`, document `"x"` (the integer variant refuses it) -/
+example : judgeU false ([.sch (.int (some .i32))] ++ .sch .str :: [.null])
+    (unionTy id (fun _ => []) ([.sch (.int (some .i32))] ++ .sch .str :: [.null])) (.str "x".toList) = true := by decide
+
+/-- finding F02-12: a `{type: null}` alternative has no variant; `null`, valid against the union, is refused -/
+theorem C02_cex_union_null_dropped :
+    validU false false [.sch .str, .sch .bool, .null] .null = true ∧
+    judgeU false [.sch .str, .sch .bool, .null] (unionTy id (fun _ => []) [.sch .str, .sch .bool, .null]) .null = false ∧
+    classesU id (fun _ => []) false [.sch .str, .sch .bool, .null] .null = [.unionNullDropped] := by decide
+
+def objA : S := .obj (.cons "a".toList .str true none .nil) .absent
+def objAB : S := .obj (.cons "a".toList .str true none (.cons "b".toList (.int none) true none .nil)) .absent
+/-- finding F02-13: `anyOf: [A, AB]` where `A` is an open object: the document `{a, b}` is valid against both, the FIRST variant
+reads it and drops `b`, a member that `AB` declares -/
+theorem C02_cex_union_shadowed :
+    validU false false [.sch objA, .sch objAB] (.obj [("a".toList, st "x"), ("b".toList, .num 1 0)]) = true ∧
+    ((rtU (unionTy id (fun _ => []) [.sch objA, .sch objAB]) (.obj [("a".toList, st "x"), ("b".toList, .num 1 0)])).map
+      (fun o => match o with | .obj kvs => kvs.map (·.1) | _ => [])) = some ["a".toList] ∧
+    judgeU false [.sch objA, .sch objAB] (unionTy id (fun _ => []) [.sch objA, .sch objAB]) (.obj [("a".toList, st "x"), ("b".toList, .num 1 0)]) = false ∧
+    classesU id (fun _ => []) false [.sch objA, .sch objAB] (.obj [("a".toList, st "x"), ("b".toList, .num 1 0)]) = [.unionShadowed] := by decide
+def objAc : S := .obj (.cons "a".toList .str true none .nil) .closed
+/-- finding F02-14: `oneOf: [A (open), A (closed)]`: `{a, b}` is valid (only the open alternative admits `b`), the open struct
+drops `b`, and the re-encoded `{a}` is valid against BOTH alternatives — no longer valid against the `oneOf` -/
+theorem C02_cex_oneof_out_ambiguous :
+    validU true false [.sch objA, .sch objAc] (.obj [("a".toList, st "x"), ("b".toList, .num 1 0)]) = true ∧
+    judgeRoot true [.sch objA, .sch objAc] (unionRoot id (fun _ => []) [.sch objA, .sch objAc]) (.obj [("a".toList, st "x"), ("b".toList, .num 1 0)]) = false ∧
+    classesU id (fun _ => []) true [.sch objA, .sch objAc] (.obj [("a".toList, st "x"), ("b".toList, .num 1 0)]) = [.oneOfOutAmbiguous] := by decide
+
+/-- … in the other order nothing is lost -/
+example : judgeU false [.sch objAB, .sch objA] (unionTy id (fun _ => []) [.sch objAB, .sch objA]) (.obj [("a".toList, st "x"), ("b".toList, .num 1 0)]) = true := by decide
 
 end Oas3.Codec.C02
